@@ -44,8 +44,10 @@ def main():
                 "level_note": c["note"],
                 "technique": c["technique"],
             })
-    not_app = [{"property_id": p, "reason": NA.get(p, "not yet served by a contract in this revision of /verif "
-                                                      "(see DESIGN.md 9, build order)")}
+    not_app = [{"property_id": p, "reason": NA.get(p, "no contract of this revision of /verif serves it: it was planned as a "
+                                                      "(partial) claim (DESIGN.md 4) and not reached in the time "
+                                                      "available (DESIGN.md 0a.3) - the functions it anchors are "
+                                                      "therefore not under contract and nothing is claimed")}
                for p in props if p not in CHECKS]
     man = {
         "version": 1,
@@ -67,8 +69,9 @@ def main():
                               "cross-check and replay of every contract against the real functions",
         }],
         "checks": checks,
-        "notes": "fix: commits in /repo and known findings are listed in /verif/KNOWN_FINDINGS.jsonl; DESIGN.md "
-                 "describes the approach, the assumptions and which seeded changes each check catches.",
+        "notes": "fix: commits in /repo and known findings are listed in /verif/KNOWN_FINDINGS.jsonl; DESIGN.md 0a "
+                 "describes what was built, the findings, corrected false alarms and which seeded changes "
+                 "(seeded/<id>/) each check catches; exit codes: 0 held, 1 violation, 2 undecided, 3 checker error.",
         "not_applicable": not_app,
     }
     with open(os.path.join(VERIF, "MANIFEST.json"), "w") as f:
